@@ -53,6 +53,7 @@ func (c *Compactor) majorCompaction(levels *LevelList, sar SAR) (*ChangeSet, err
 	// Go through all non-base levels from oldest to newest and pick tables to
 	// merge into base level.
 	var tablesToMerge []*Table
+pickLevels:
 	for level := range levels.AscendLevels(1) {
 		tableIter := slices.SortedFunc(level.AllTables(), OrderOldToNew)
 
@@ -62,7 +63,10 @@ func (c *Compactor) majorCompaction(levels *LevelList, sar SAR) (*ChangeSet, err
 			sar = sar.WithCompactedBytes(int64(candidate.Size()))
 			tablesToMerge = append(tablesToMerge, candidate)
 			if sar.Percentage() < c.MaxSizeAmplificationPercent {
-				break
+				// Stop picking altogether: tables of newer levels may hold newer
+				// versions of keys that remain in the unpicked tables of this
+				// level, so they must not be moved beneath them into the base level.
+				break pickLevels
 			}
 		}
 	}
